@@ -346,6 +346,9 @@ func evalC(run *ev.Run, cases []*Case) (details []string, bad [][]int, known int
 			}
 			ex := pgo.Expected(p, tree, w)
 			r := outs[i].Results[k]
+			if r.Skipped {
+				continue
+			}
 			run.Eval(1)
 			run.Class("layerC:chains")
 			if r.OK && r.Errs == 0 && r.Panic == "" && r.Tree == ex.Tree {
